@@ -30,7 +30,8 @@ from qiskit.quantum_info import PauliList
 from common import CaseWriter, Raw, coq, call_canon
 from circ import CircCtx, coq_instr, circuit_registers
 
-IMPORTS = "From CKT Require Import Common.Base Common.Circ Model.ResetPasses Corr.C12Corr."
+IMPORTS = ("From Coq Require Import QArith.\nClose Scope Q_scope.\n"
+           "From CKT Require Import Common.Base Common.Circ Model.ResetPasses Corr.C12Corr.")
 
 PASSES = ["consolidate", "zero", "final", "pipeline", "dag_rfr", "dag_rfr_fix", "dag_consolidate"]
 # further call forms of the three list passes (random / exotic streams only):
@@ -387,6 +388,32 @@ def rand_layout(rng, n):
 # generate
 # ----------------------------------------------------------------------------------------------
 
+QSIM_CODE = {"x": 0, "y": 1, "z": 2, "h": 3, "s": 4, "sdg": 5, "sx": 6, "sxdg": 7, "cx": 8, "cz": 9, "swap": 10, "ccx": 11}
+
+
+def sim_case(w, stream, nq, nc, cin):
+    """The Coq concrete semantics (Model/ResetSim.v over Common/QSim.v) against the numpy simulator:
+    only circuits whose gates are all in the QSim gate set and whose outcome probabilities are dyadic."""
+    from fractions import Fraction
+    tab = {}
+    for d in cin:
+        if d["op"][0] == "gate":
+            if d["op"][2] not in QSIM_CODE or d["op"][3]:
+                return
+            tab[d["op"][1]] = QSIM_CODE[d["op"][2]]
+    law = []
+    for k, rho in sorted(simulate(nq, nc, cin).items()):
+        p = float(np.real(np.trace(rho)))
+        fr = Fraction(round(p * 4096), 4096)
+        if abs(float(fr) - p) > 1e-9:
+            return
+        if fr > 0:
+            law.append(([bool(b) for b in k], fr))
+    case = dict(kind="sim", nq=nq, nc=nc, cin=[tok(d) for d in cin], law=[[k, str(p)] for k, p in law])
+    w.add(stream, "chk_sim", (nq, nc, sorted(tab.items()), lit_circ(cin), law), case,
+          nontrivial=any(d["op"][0] == "reset" for d in cin))
+
+
 def features(w, stream, cin, couts):
     nres = sum(1 for d in cin if d["op"][0] == "reset")
     w.count(stream + ".len", len(cin))
@@ -423,6 +450,9 @@ def one_case(w, stream, nq, nc, prog, qlayout=None, clayout=None, combined=False
                 bits_changed=bits_changed)
     v = judged(w, case)
     features(w, stream, cin, couts)
+    w._c12_n = getattr(w, "_c12_n", 0) + 1
+    if (not combined) or w._c12_n % 11 == 0:
+        sim_case(w, "sim." + stream, nq, nc, cin)
     changed = any(len(couts[k]) != len(cin) for k in PASSES)
     if combined:
         w.add(stream, "chk_all", (nq, nc, lit_circ(cin), [lit_circ(couts[k]) for k in PASSES]), case, nontrivial=changed)
@@ -971,6 +1001,9 @@ def judge(case):
     """Domain = the property's quantifier: gates, measurements, resets, barriers on in-range bits.
     Anything the oracle cannot interpret is outside that domain and is not flagged."""
     try:
+        if case.get("kind") == "sim":
+            return dict(violates=False, detail="cross-check of the Coq concrete semantics against the numpy simulator; "
+                                               "no implementation output involved")
         if case.get("kind") == "e2e":
             p = judge_e2e(case)
             return dict(violates=bool(p), detail=p or "property holds on this subexperiment")
@@ -1007,6 +1040,8 @@ def rerun(case):
         name = d["op"][0] if d["op"][0] != "gate" else d["op"][2]
         params = d["op"][3] if d["op"][0] == "gate" else []
         prog.append((name, params, d["qs"], d["cs"]))
+    if case.get("kind") == "sim":
+        return case
     if case.get("kind") == "e2e" or case.get("origin"):
         # subexperiment-shaped input: re-run the recorded pass / the call sites of generate_cutting_experiments on it
         qc = build(case["nq"], case["nc"], prog)
